@@ -353,8 +353,21 @@ def finish(ctx, assumptions, functions, bounds, outside, rule):
         outcome = None
         # several findings may share a role key: replay up to four of them (different scenarios) until one reproduces
         # scenarios made of concrete content (literal encodings, fixed special values) first: they replay bit-for-bit
-        fs = sorted(fs, key=lambda f: -f.detail.get('replay_priority', 0))
-        for f in fs[:4]:
+        # ... then a deterministic, DIVERSE sample: distinct scenarios only (the parallel analysis produces findings in scheduling order, and
+        # hundreds of assertions of one role may fail at once), at most eight of them, evenly spaced over the sorted list
+        seen_cfg, uniq = set(), []
+        for f in sorted(fs, key=lambda f: (-f.detail.get('replay_priority', 0), json.dumps(f.detail.get('replay_cfg') or f.cfg, sort_keys=True, default=str), f.what)):
+            k = (f.concrete_pred, json.dumps(f.detail.get('replay_cfg') or f.cfg, sort_keys=True, default=str))
+            if k not in seen_cfg:
+                seen_cfg.add(k)
+                uniq.append(f)
+        top = [f for f in uniq if f.detail.get('replay_priority', 0) > 0][:4]
+        rest = [f for f in uniq if f not in top]
+        if len(rest) > 8 - len(top):
+            n_ = 8 - len(top)
+            rest = [rest[(i * (len(rest) - 1)) // max(n_ - 1, 1)] for i in range(n_)]
+        fs = top + rest
+        for f in fs:
             reproduced, rep_detail = None, None
             if f.concrete_pred:
                 try:
@@ -374,7 +387,7 @@ def finish(ctx, assumptions, functions, bounds, outside, rule):
         elif all(getattr(f, 'engine', 'S') == 'M' for f in fs):
             # a counterexample / structural mismatch that exists only in the MIR encoding and does not reproduce on the real crates:
             # the encoding does not describe this tree's code shape (e.g. a refactored region) -> that obligation group is not decided here
-            if any(f.concrete_pred for f in fs[:4]):
+            if any(f.concrete_pred for f in fs):
                 ctx.m_note(key, 'the MIR encoding disagrees with the specification but the real crates do not (%s; replay: %s)' % (outcome[0].what[:200], str(outcome[1])[:120]))
             else:
                 ctx.m_note(key, 'the MIR encoding disagrees with the specification and no concrete replay exists for this obligation (%s)' % outcome[0].what[:200])
